@@ -144,3 +144,67 @@ Proof.
   - intros j. qc_unf. rewrite <- Qcz_add. change (Qcz 1) with 1%Qc. ring.
   - intros i Hi. replace (i =? 6) with false by (symmetry; apply Z.eqb_neq; lia). reflexivity.
 Qed.
+
+(** *** (family scaling) the Fokker-Planck decrement main() hands to FokkerPlanckMap, over the definition GENERATED
+    from main() on every run (Gen/Gen_Scaling.v: [gen_e1] is the expression that reaches the `e1` parameter of the
+    FokkerPlanckMap constructor, inlined down to the options [L O_<getter>]).  For every field, interpretation [O] of
+    the comparisons / sqrt and option values [L]; hypotheses such as [o_lt O 0 (L O_getDampingTime) = true] say which
+    branch of main() is taken (DampingTime > 0). *)
+From Inovesa Require Model.ScalingOps Gen.Gen_Scaling Proofs.ScalingE1P.
+Module ScalingFamily.   (* imports and scopes stay local to this block *)
+Import ScalingOps Gen_Scaling ScalingE1P.
+Local Open Scope F_scope.
+
+(** the property's anchor in the options themselves (synchrotron frequency given, StepsPerTs >= 1, StepsPerRevolution not
+    given): e1 = 2/(SynchrotronFrequency * DampingTime * StepsPerTs) *)
+Theorem C04_main_e1_in_options :
+  forall (K : Fld) (O : Ops K) (L : leaf -> K) (B : bleaf -> bool),
+    o_lt O (L O_getDampingTime) 0 = false -> o_lt O 0 (L O_getDampingTime) = true ->
+    o_is0 O (L O_getSyncFreq) = false ->
+    o_lt O 0 (L O_getStepsPerTrev) = false -> o_lt O (L O_getStepsPerTsync) 1 = false ->
+    L O_getSyncFreq <> 0 -> L O_getStepsPerTsync <> 0 -> L O_getDampingTime <> 0 ->
+    gen_e1 K O L B = two / (L O_getSyncFreq * L O_getDampingTime * L O_getStepsPerTsync).
+Proof. exact e1_in_options. Qed.
+Print Assumptions C04_main_e1_in_options.
+
+(** with StepsPerRevolution steps per turn the number of steps per synchrotron period is StepsPerRevolution*f_rev/f_s *)
+Theorem C04_main_e1_with_StepsPerRevolution :
+  forall (K : Fld) (O : Ops K) (L : leaf -> K) (B : bleaf -> bool),
+    o_lt O (L O_getDampingTime) 0 = false -> o_lt O 0 (L O_getDampingTime) = true ->
+    o_is0 O (L O_getSyncFreq) = false -> o_lt O 0 (L O_getStepsPerTrev) = true ->
+    L O_getSyncFreq <> 0 -> L O_getStepsPerTrev <> 0 -> L O_getRevolutionFrequency <> 0 -> L O_getDampingTime <> 0 ->
+    gen_e1 K O L B = two / (L O_getSyncFreq * L O_getDampingTime * (L O_getStepsPerTrev * L O_getRevolutionFrequency / L O_getSyncFreq)) /\
+    gen_e1 K O L B = two / (L O_getDampingTime * L O_getStepsPerTrev * L O_getRevolutionFrequency).
+Proof. exact e1_with_StepsPerRevolution. Qed.
+Print Assumptions C04_main_e1_with_StepsPerRevolution.
+
+(** synchrotron frequency derived from alpha0: f_s = f_rev sqrt(alpha0 h V_eff/(2 pi E0)), V_eff being what main() also
+    hands to the sinusoidal RF maps as their voltage *)
+Theorem C04_main_e1_with_alpha0 :
+  forall (K : Fld) (O : Ops K) (L : leaf -> K) (B : bleaf -> bool),
+    o_lt O (L O_getDampingTime) 0 = false -> o_lt O 0 (L O_getDampingTime) = true ->
+    o_is0 O (L O_getSyncFreq) = true ->
+    o_lt O 0 (L O_getStepsPerTrev) = false -> o_lt O (L O_getStepsPerTsync) 1 = false ->
+    let fs := L O_getRevolutionFrequency *
+              o_sqrt O (L O_getAlpha0 * L O_getHarmonicNumber * gen_sinrf_V_RF K O L B / (L C_two_pi * L O_getBeamEnergy)) in
+    fs <> 0 -> L O_getStepsPerTsync <> 0 -> L O_getDampingTime <> 0 ->
+    gen_e1 K O L B = two / (fs * L O_getDampingTime * L O_getStepsPerTsync).
+Proof. exact e1_with_alpha0. Qed.
+Print Assumptions C04_main_e1_with_alpha0.
+
+(** DampingTime = 0 switches the Fokker-Planck term off (main() then builds the Identity map) *)
+Theorem C04_main_e1_off :
+  forall (K : Fld) (O : Ops K) (L : leaf -> K) (B : bleaf -> bool),
+    o_lt O (L O_getDampingTime) 0 = false -> o_lt O 0 (L O_getDampingTime) = false -> gen_e1 K O L B = 0.
+Proof. exact e1_off. Qed.
+Print Assumptions C04_main_e1_off.
+
+(** non-vacuity over Qc: f_s = 8000, t_damp = 1/100, StepsPerTs = 50 -> e1 = 2/4000; the branch hypotheses hold *)
+Example C04_main_e1_example :
+  let L := fun l => match l with O_getSyncFreq => Q2Qc 8000 | O_getDampingTime => Q2Qc (1 # 100) | O_getStepsPerTsync => Q2Qc 50
+                              | O_getStepsPerTrev => 0%Qc | _ => 1%Qc end in
+  this (gen_e1 QcF QcOps L (fun _ => false)) = (1 # 2000)%Q /\
+  o_lt QcOps (L O_getDampingTime) 0%Qc = false /\ o_lt QcOps 0%Qc (L O_getDampingTime) = true /\
+  o_is0 QcOps (L O_getSyncFreq) = false.
+Proof. vm_compute. repeat split; reflexivity. Qed.
+End ScalingFamily.
